@@ -6,4 +6,8 @@ cd "$HERE"
 if ! PYTHONPATH="$HERE/.deps" /venv/bin/python -c "import hypothesis" 2>/dev/null; then
   PIP_NO_INDEX=1 /venv/bin/pip install --no-index --find-links /opt/veriftools/wheels --target "$HERE/.deps" hypothesis || exit 1
 fi
+# optional: atheris for the coverage-guided supplement of C17's thorough tier (skipped silently if the wheel is missing)
+if ! PYTHONPATH="$HERE/.deps" /venv/bin/python -c "import atheris" 2>/dev/null; then
+  PIP_NO_INDEX=1 /venv/bin/pip install -q --no-index --find-links /opt/veriftools/wheels --target "$HERE/.deps" atheris >/dev/null 2>&1 || true
+fi
 PYTHONPATH="/repo:$HERE/.deps" /venv/bin/python -c "import hypothesis, stix2, stix2patterns; print('setup ok: hypothesis', hypothesis.__version__, 'stix2', stix2.__version__)"
